@@ -23,6 +23,7 @@
 #include <stdarg.h>
 #include <setjmp.h>
 #include <stdint.h>
+#include <unistd.h>
 #include "mir.h"
 #include "mir-gen.h"
 
@@ -313,12 +314,14 @@ int main (void) {
       }
       if (scanf ("%7s", tag) != 1 || tag[0] != 'E') return 3;
       ncase++; nitem_total += nitems; bad = 0; asan_hits = 0;
-      printf ("P %ld\n", caseno); fflush (stdout); /* progress: a crash is attributed to the last case started */
+      printf ("P %ld\n", caseno); fflush (stdout); /* progress: a crash or a hang is attributed to the last case started */
+      alarm (20);
       run_case ();
       if (asan_hits) { char seq[512]; describe (seq); FAIL (0, "asan", "%d sanitizer report(s), first: %s [%s]", asan_hits, asan_first, seq); }
       fflush (stdout);
     }
   }
+  alarm (0);
   printf ("DONE %ld %ld %ld\n", ncase, nitem_total, nfail);
   return 0;
 }
